@@ -15,10 +15,24 @@ import (
 // ToString), functions by name / parameters / body text, computed values by
 // expression text and attribute map, natives by name and boundness.
 func EqualVM(ref *Value, got *ds.VMValue) (bool, string) {
-	return equalVM(ref, got, "", 0)
+	return equalVM(ref, got, "", 0, visited{})
 }
 
-func equalVM(ref *Value, got *ds.VMValue, path string, depth int) (bool, string) {
+// visited holds the (reference container, VM container) pairs already under comparison or
+// compared: a pair met again is taken as equal (shared and self-containing values would
+// otherwise be walked exponentially often or for ever).
+type visited map[[2]any]bool
+
+func (v visited) seen(ref, got any) bool {
+	k := [2]any{ref, got}
+	if v[k] {
+		return true
+	}
+	v[k] = true
+	return false
+}
+
+func equalVM(ref *Value, got *ds.VMValue, path string, depth int, vis visited) (bool, string) {
 	if path == "" {
 		path = "value"
 	}
@@ -28,8 +42,8 @@ func equalVM(ref *Value, got *ds.VMValue, path string, depth int) (bool, string)
 	if ref == nil {
 		return false, path + ": reference value is nil"
 	}
-	if depth > 60 {
-		return true, "" // cyclic or very deep values are not generated; do not loop
+	if depth > 200 {
+		return true, "" // absurdly deep: stop
 	}
 	if got.TypeId != ds.VMValueType(ref.TypeId()) {
 		return false, fmt.Sprintf("%s: type %d, want %s", path, got.TypeId, ref.K)
@@ -59,6 +73,9 @@ func equalVM(ref *Value, got *ds.VMValue, path string, depth int) (bool, string)
 		if len(ad.List) != len(ref.Arr.List) {
 			return false, fmt.Sprintf("%s: array length %d, want %d", path, len(ad.List), len(ref.Arr.List))
 		}
+		if vis.seen(ref.Arr, ad) {
+			return true, ""
+		}
 		if ref.Arr.orderMatters() {
 			// order unspecified: every reference element must match a distinct VM element
 			used := make([]bool, len(ad.List))
@@ -68,7 +85,7 @@ func equalVM(ref *Value, got *ds.VMValue, path string, depth int) (bool, string)
 					if used[j] {
 						continue
 					}
-					if ok, _ := equalVM(e, g, path, depth+1); ok {
+					if ok, _ := equalVM(e, g, path, depth+1, visited{}); ok {
 						used[j], found = true, true
 						break
 					}
@@ -80,7 +97,7 @@ func equalVM(ref *Value, got *ds.VMValue, path string, depth int) (bool, string)
 			return true, ""
 		}
 		for i := range ad.List {
-			if ok, why := equalVM(ref.Arr.List[i], ad.List[i], fmt.Sprintf("%s[%d]", path, i), depth+1); !ok {
+			if ok, why := equalVM(ref.Arr.List[i], ad.List[i], fmt.Sprintf("%s[%d]", path, i), depth+1, vis); !ok {
 				return false, why
 			}
 		}
@@ -89,7 +106,10 @@ func equalVM(ref *Value, got *ds.VMValue, path string, depth int) (bool, string)
 		if !ok || dd == nil || dd.Dict == nil {
 			return false, path + ": unreadable dict"
 		}
-		return equalMap(ref.Dict.M, dd.Dict, path, depth)
+		if vis.seen(ref.Dict, dd) {
+			return true, ""
+		}
+		return equalMap(ref.Dict.M, dd.Dict, path, depth, vis)
 	case KFunc:
 		fd, ok := got.ReadFunctionData()
 		if !ok || fd == nil {
@@ -118,7 +138,10 @@ func equalVM(ref *Value, got *ds.VMValue, path string, depth int) (bool, string)
 			}
 			return true, ""
 		}
-		return equalMap(ref.Comp.Attrs, cd.Attrs, path+".&", depth)
+		if vis.seen(ref.Comp, cd) {
+			return true, ""
+		}
+		return equalMap(ref.Comp.Attrs, cd.Attrs, path+".&", depth, vis)
 	case KNative:
 		nd, ok := got.ReadNativeFunctionData()
 		if !ok || nd == nil {
@@ -134,7 +157,7 @@ func equalVM(ref *Value, got *ds.VMValue, path string, depth int) (bool, string)
 	return true, ""
 }
 
-func equalMap(ref map[string]*Value, got *ds.ValueMap, path string, depth int) (bool, string) {
+func equalMap(ref map[string]*Value, got *ds.ValueMap, path string, depth int, vis visited) (bool, string) {
 	seen := map[string]*ds.VMValue{}
 	dup := ""
 	got.Range(func(k string, v *ds.VMValue) bool {
@@ -169,7 +192,7 @@ func equalMap(ref map[string]*Value, got *ds.ValueMap, path string, depth int) (
 	}
 	sort.Strings(keys)
 	for _, k := range keys {
-		if ok, why := equalVM(ref[k], seen[k], fmt.Sprintf("%s[%q]", path, k), depth+1); !ok {
+		if ok, why := equalVM(ref[k], seen[k], fmt.Sprintf("%s[%q]", path, k), depth+1, vis); !ok {
 			return false, why
 		}
 	}
@@ -184,5 +207,5 @@ func EqualStore(ref map[string]*Value, got *ds.ValueMap) (bool, string) {
 		}
 		return false, "VM has no attribute map"
 	}
-	return equalMap(ref, got, "vars", 0)
+	return equalMap(ref, got, "vars", 0, visited{})
 }
